@@ -76,7 +76,9 @@ def check(run):
     # long literals: fixed prefix of digits so that values at and beyond each type's bounds are reached with few symbolic bytes
     for h, pre in (('PU8', b'25'), ('PI8', b'-12'), ('PU16', b'6553'), ('PI16', b'-3276'), ('PU32', b'429496729'), ('PI32', b'-214748364'),
                    ('PU64', b'1844674407370955161'), ('PI64', b'-922337203685477580'), ('PI64', b'922337203685477580'), ('PU16', b'#HFFF'), ('PI16', b'#H7FF'), ('PU8', b'#B1111111'),
-                   ('PI8', b'#Q17'), ('PU32', b'#HFFFFFFF')):
+                   ('PI8', b'#Q17'), ('PU32', b'#HFFFFFFF'), ('PU64', b'#Q177777777777777777777'), ('PU64', b'#Q7777777777777777777777'), ('PU8', b'#Q20000000000000000001'),
+                   ('PI32', b'#Q70000000000000000000'), ('PU64', b'#HFFFFFFFFFFFFFFF'), ('PU16', b'#H1000000000000FF'), ('PU64', b'#B' + b'1' * 63), ('PU8', b'#B1' + b'0' * 62),
+                   ('PI64', b'#H7FFFFFFFFFFFFFF'), ('PUS', b'1844674407370955161'), ('PIS', b'-922337203685477580')):
         st = run.explore(f'TY {h} {pre.decode()}<2 symbolic bytes> LF (values at and just beyond the bounds)', ARG + ({'handler': h, 'L': 2, 'prefix': pre.decode('latin1')},), 300)
         records.extend(st['records'])
     st = run.explore('arity: N0..N10 with 0..11 parameters', ARITY + ({},), 300)
@@ -136,7 +138,7 @@ def confirm(run, v):
                 return None, {'note': 'no literal of the list shows a wrong value'}
         return None, {'note': 'not reproduced in release'}
     detail = {}
-    ok_all = True
+    ok_all = False      # reproduced in the dev or the release profile (both recorded)
     for rel in (False, True):
         o = run.native([{'entry': 'run', 'device': 'TY', 'input': v['input'], 'cap': None}], release=rel)[0]
         calls = [e for e in o.get('events', []) if e[0] == 'call']
@@ -156,7 +158,7 @@ def confirm(run, v):
         else:
             ok = not native_arg_ok(bytes.fromhex(v['input']), v['ptype'], calls, errs, o)
         detail['release' if rel else 'dev'] = {'observation': o, 'reproduced': ok}
-        ok_all = ok_all and ok
+        ok_all = ok_all or ok
     return ok_all, detail
 
 
